@@ -232,4 +232,954 @@ Proof.
     lra.
 Qed.
 
+
+(* ---------------------------------------------------------------------------------------- *)
+(* helpers for stepping through an action                                                   *)
+(* ---------------------------------------------------------------------------------------- *)
+Lemma spec_ret_any {A} k (a : A) (Q : A -> Prop) : Q a -> spec k (ret a) Q.
+Proof. intro H. eapply spec_weaken with (k := 0%nat); [lia|intros ? HH; exact HH|]. now apply spec_ret. Qed.
+
+Lemma spec_pure_bind {A B} k (m : M R A) (f : A -> M R B) a (Q : B -> Prop) :
+  pure_ok m a -> spec k (f a) Q -> spec k (bind m f) Q.
+Proof.
+  intros Hm Hf us Hus Hlen. destruct (Hf us Hus Hlen) as (b & pre & us' & E & Hp & Ef & Hb).
+  exists b, pre, us'. repeat split; auto. unfold bind. rewrite Hm. exact Ef.
+Qed.
+
+Lemma spec_draw_bind {B} k (f : R -> M R B) (Q : B -> Prop) :
+  (forall u, in01 u -> spec k (f u) Q) -> spec (S k) (bind draw_random f) Q.
+Proof.
+  intros H. change (S k) with (1 + k)%nat. eapply spec_bind; [apply spec_draw|exact H].
+Qed.
+
+Ltac rsimp := cbn [o_add o_sub o_mul o_div o_neg o_abs o_ltb o_leb o_same o_c0 o_half o_one o_two
+                   o_eps o_sqrt o_ofnat o_pw o_exp ROps] in *.
+
+(* ---------------------------------------------------------------------------------------- *)
+(* cxSimulatedBinary                                                                        *)
+(* ---------------------------------------------------------------------------------------- *)
+(* c1 + c2 = x1 + x2 whatever the draw and whatever beta *)
+Lemma sbx_gene_sum eta x1 x2 s c1 c2 s' :
+  sbx_gene O eta x1 x2 s = Ok ((c1, c2), s') -> c1 + c2 = x1 + x2.
+Proof.
+  unfold sbx_gene, bind, draw_random. destruct s as [|[u| | |] s]; try discriminate.
+  rsimp.
+  destruct (if Rleb u (/ 2) then _ else _) as [[beta0 s0]| |]; try discriminate.
+  destruct (lift (Rdiv' 1 (eta + 1)) s0) as [[ex s1]| |]; try discriminate.
+  destruct (lift (pwR beta0 ex) s1) as [[beta s2]| |]; try discriminate.
+  unfold ret. intros E; inversion E; subst. field.
+Qed.
+
+Lemma sbx_gene_spec eta x1 x2 : 0 <= eta ->
+  spec 1 (sbx_gene O eta x1 x2) (fun c => fst c + snd c = x1 + x2).
+Proof.
+  intros He. unfold sbx_gene. apply spec_draw_bind. intros rand [Hr0 Hr1]. rsimp.
+  assert (Hex : 0 < 1 / (eta + 1)) by (apply Rdiv_lt_0_compat; lra).
+  assert (Hb0 : exists b0, pure_ok (if Rleb rand (/ 2) then ret (2 * rand)
+                                    else lift (Rdiv' 1 (2 * (1 - rand)))) b0 /\ 0 <= b0).
+  { destruct (Rleb rand (/ 2)).
+    - exists (2 * rand). split; [apply pure_ret|lra].
+    - exists (1 / (2 * (1 - rand))). split; [apply pure_div; lra|].
+      left. apply Rdiv_lt_0_compat; lra. }
+  destruct Hb0 as (b0 & Pb0 & Hb0).
+  eapply spec_pure_bind; [exact Pb0|].
+  eapply spec_pure_bind; [apply pure_div; lra|].
+  destruct (pwR_nonneg b0 _ Hb0 Hex) as (beta & Eb & _).
+  eapply spec_pure_bind; [apply pure_pw; exact Eb|].
+  apply spec_ret_any. cbn [fst snd]. field.
+Qed.
+
+(* ---------------------------------------------------------------------------------------- *)
+(* cxSimulatedBinaryBounded                                                                 *)
+(* ---------------------------------------------------------------------------------------- *)
+(* every divisor is non-zero and every power base is in its domain *)
+Lemma betaq_ok eta rand num den : 0 <= eta -> in01 rand -> 0 <= num -> 0 < den ->
+  exists bq, pure_ok (sbxb_betaq O eta rand num den) bq /\ 0 <= bq.
+Proof.
+  intros He [Hr0 Hr1] Hn Hd. unfold sbxb_betaq. rsimp.
+  assert (Hq : 0 <= 2 * num / den) by (apply Rmult_le_pos; [lra|left; now apply Rinv_0_lt_compat]).
+  set (beta := 1 + 2 * num / den) in *.
+  assert (Hbeta : 1 <= beta) by (unfold beta; lra).
+  destruct (pwR_pos beta (- (eta + 1)) ltac:(lra)) as [Ep _].
+  destruct (Rpower_neg_le1 beta (- (eta + 1)) Hbeta ltac:(lra)) as [Hp0 Hp1].
+  set (p := Rpower beta (- (eta + 1))) in *.
+  assert (Hex : 0 < 1 / (eta + 1)) by (apply Rdiv_lt_0_compat; lra).
+  assert (Ha : 1 <= 2 - p < 2) by lra.
+  destruct (Rleb rand (1 / (2 - p))) eqn:Eia.
+  - assert (Hra : 0 <= rand * (2 - p)) by (apply Rmult_le_pos; lra).
+    destruct (pwR_nonneg _ _ Hra Hex) as (bq & Ebq & Hbq).
+    exists bq. split; [|exact Hbq].
+    eapply pure_bind; [apply pure_div; lra|]. fold beta.
+    eapply pure_bind; [apply pure_pw; exact Ep|]. fold p.
+    eapply pure_bind; [apply pure_div; lra|]. rewrite Eia.
+    eapply pure_bind; [apply pure_div; lra|]. apply pure_pw; exact Ebq.
+  - assert (Hra : rand * (2 - p) < 2) by nra.
+    assert (Hb : 0 < 1 / (2 - rand * (2 - p))) by (apply Rdiv_lt_0_compat; lra).
+    destruct (pwR_pos _ (1 / (eta + 1)) Hb) as [Ebq Hbq].
+    eexists. split; [|left; exact Hbq].
+    eapply pure_bind; [apply pure_div; lra|]. fold beta.
+    eapply pure_bind; [apply pure_pw; exact Ep|]. fold p.
+    eapply pure_bind; [apply pure_div; lra|]. rewrite Eia.
+    eapply pure_bind; [apply pure_div; lra|].
+    eapply pure_bind; [apply pure_div; lra|]. apply pure_pw; exact Ebq.
+Qed.
+
+Definition inb (xl xu c : R) : Prop := xl <= c <= xu.
+
+Lemma sbxb_gene_spec eta xl xu a b : 0 <= eta -> inb xl xu a -> inb xl xu b ->
+  spec 3 (sbxb_gene O eta xl xu a b) (fun c => inb xl xu (fst c) /\ inb xl xu (snd c)).
+Proof.
+  intros He Ha Hb. unfold inb in *. unfold sbxb_gene. apply spec_draw_bind. intros u1 Hu1. rsimp.
+  destruct (Rleb u1 (/ 2)); [|apply spec_ret_any; cbn; tauto].
+  destruct (Rltb eps (Rabs (a - b))) eqn:Eg; [|apply spec_ret_any; cbn; tauto].
+  apply Rltb_true in Eg.
+  assert (Hab : a <> b).
+  { intro E. subst b. rewrite Rminus_diag_eq in Eg by reflexivity. rewrite Rabs_R0 in Eg. lra. }
+  rewrite pymin_spec, pymax_spec.
+  assert (Hx : xl <= Rmin a b /\ Rmin a b < Rmax a b /\ Rmax a b <= xu).
+  { unfold Rmin, Rmax. destruct (Rle_dec a b); lra. }
+  set (x1 := Rmin a b) in *. set (x2 := Rmax a b) in *.
+  apply spec_draw_bind. intros rand Hrand.
+  destruct (betaq_ok eta rand (x1 - xl) (x2 - x1) He Hrand ltac:(lra) ltac:(lra)) as (bq1 & P1 & _).
+  destruct (betaq_ok eta rand (xu - x2) (x2 - x1) He Hrand ltac:(lra) ltac:(lra)) as (bq2 & P2 & _).
+  eapply spec_pure_bind; [exact P1|].
+  eapply spec_pure_bind; [exact P2|].
+  apply spec_draw_bind. intros u3 _.
+  assert (Hlu : xl <= xu) by lra.
+  destruct (Rleb u3 (/ 2)); apply spec_ret_any; cbn [fst snd]; split; apply clip_in; exact Hlu.
+Qed.
+
+(* ---------------------------------------------------------------------------------------- *)
+(* mutPolynomialBounded                                                                     *)
+(* ---------------------------------------------------------------------------------------- *)
+Lemma poly_gene_spec eta indpb xl xu x : 0 <= eta -> xl < xu -> inb xl xu x ->
+  spec 2 (poly_gene O eta indpb xl xu x) (inb xl xu).
+Proof.
+  intros He Hlu Hx. unfold inb in *. unfold poly_gene. apply spec_draw_bind. intros u _. rsimp.
+  destruct (Rleb u indpb); [|apply spec_ret_any; exact Hx].
+  assert (Hd : 0 < xu - xl) by lra.
+  eapply spec_pure_bind; [apply pure_div; lra|].
+  eapply spec_pure_bind; [apply pure_div; lra|].
+  apply spec_draw_bind. intros rand [Hr0 Hr1].
+  eapply spec_pure_bind; [apply pure_div; lra|].
+  assert (Hex : 0 < 1 / (eta + 1)) by (apply Rdiv_lt_0_compat; lra).
+  assert (Hd1 : 0 <= (x - xl) / (xu - xl) <= 1).
+  { split; [apply Rmult_le_pos; [lra|left; now apply Rinv_0_lt_compat]|].
+    apply Rmult_le_reg_r with (xu - xl); [lra|]. unfold Rdiv. rewrite Rmult_assoc, Rinv_l; lra. }
+  assert (Hd2 : 0 <= (xu - x) / (xu - xl) <= 1).
+  { split; [apply Rmult_le_pos; [lra|left; now apply Rinv_0_lt_compat]|].
+    apply Rmult_le_reg_r with (xu - xl); [lra|]. unfold Rdiv. rewrite Rmult_assoc, Rinv_l; lra. }
+  destruct (Rltb rand (/ 2)) eqn:Eh.
+  - apply Rltb_true in Eh.
+    destruct (pwR_unit (1 - (x - xl) / (xu - xl)) (eta + 1) ltac:(lra) ltac:(lra)) as (p & Ep & Hp).
+    assert (Hval : 0 <= 2 * rand + (1 - 2 * rand) * p) by nra.
+    destruct (pwR_nonneg _ _ Hval Hex) as (q & Eq & _).
+    eapply spec_pure_bind.
+    { eapply pure_bind; [apply pure_pw; exact Ep|].
+      eapply pure_bind; [apply pure_pw; exact Eq|]. apply pure_ret. }
+    apply spec_ret_any. apply clip_in; lra.
+  - apply Rltb_false in Eh.
+    destruct (pwR_unit (1 - (xu - x) / (xu - xl)) (eta + 1) ltac:(lra) ltac:(lra)) as (p & Ep & Hp).
+    assert (Hval : 0 <= 2 * (1 - rand) + 2 * (rand - / 2) * p) by nra.
+    destruct (pwR_nonneg _ _ Hval Hex) as (q & Eq & _).
+    eapply spec_pure_bind.
+    { eapply pure_bind; [apply pure_pw; exact Ep|].
+      eapply pure_bind; [apply pure_pw; exact Eq|]. apply pure_ret. }
+    apply spec_ret_any. apply clip_in; lra.
+Qed.
+
+
+(* ---------------------------------------------------------------------------------------- *)
+(* loops: two parents, locus by locus                                                       *)
+(* ---------------------------------------------------------------------------------------- *)
+(* [locus2 P l1 l2 c1 c2]: at every locus below the shorter parent P relates the parents' genes to
+   the children's; past it both children are the parents unchanged *)
+Fixpoint locus2 (P : R -> R -> R * R -> Prop) (l1 l2 c1 c2 : list R) : Prop :=
+  match l1, l2 with
+  | x1 :: r1, x2 :: r2 =>
+      match c1, c2 with
+      | y1 :: r1', y2 :: r2' => P x1 x2 (y1, y2) /\ locus2 P r1 r2 r1' r2'
+      | _, _ => False
+      end
+  | _, _ => c1 = l1 /\ c2 = l2
+  end.
+
+Lemma locus2_length P l1 l2 c1 c2 : locus2 P l1 l2 c1 c2 -> length c1 = length l1 /\ length c2 = length l2.
+Proof.
+  revert l2 c1 c2; induction l1 as [|x1 r1 IH]; intros l2 c1 c2 H.
+  - destruct H; subst; auto.
+  - destruct l2 as [|x2 r2]; [destruct H; subst; auto|].
+    destruct c1 as [|y1 r1']; [contradiction|]. destruct c2 as [|y2 r2']; [contradiction|].
+    destruct H as [_ H]. destruct (IH _ _ _ H). simpl; split; congruence.
+Qed.
+
+Lemma locus2_nth P l1 l2 c1 c2 : locus2 P l1 l2 c1 c2 ->
+  forall i, (i < Nat.min (length l1) (length l2))%nat ->
+  P (nth i l1 0) (nth i l2 0) (nth i c1 0, nth i c2 0).
+Proof.
+  revert l2 c1 c2; induction l1 as [|x1 r1 IH]; intros l2 c1 c2 H i Hi; [simpl in Hi; lia|].
+  destruct l2 as [|x2 r2]; [simpl in Hi; lia|].
+  destruct c1 as [|y1 r1']; [contradiction|]. destruct c2 as [|y2 r2']; [contradiction|].
+  destruct H as [H0 H]. destruct i as [|i]; [exact H0|]. simpl in Hi. simpl. apply (IH _ _ _ H). lia.
+Qed.
+
+Lemma locus2_rest P l1 l2 c1 c2 : locus2 P l1 l2 c1 c2 ->
+  forall i, (Nat.min (length l1) (length l2) <= i)%nat ->
+  nth i c1 0 = nth i l1 0 /\ nth i c2 0 = nth i l2 0.
+Proof.
+  revert l2 c1 c2; induction l1 as [|x1 r1 IH]; intros l2 c1 c2 H i Hi.
+  - destruct H; subst; auto.
+  - destruct l2 as [|x2 r2]; [destruct H; subst; auto|].
+    destruct c1 as [|y1 r1']; [contradiction|]. destruct c2 as [|y2 r2']; [contradiction|].
+    destruct H as [_ H]. destruct i as [|i]; [simpl in Hi; lia|]. simpl in Hi. simpl.
+    apply (IH _ _ _ H). lia.
+Qed.
+
+Lemma zip2M_spec k (f : R -> R -> M R (R * R)) (P : R -> R -> R * R -> Prop) :
+  (forall x1 x2, spec k (f x1 x2) (P x1 x2)) ->
+  forall l1 l2, spec (k * Nat.min (length l1) (length l2)) (zip2M f l1 l2)
+                     (fun c => locus2 P l1 l2 (fst c) (snd c)).
+Proof.
+  intros Hf. induction l1 as [|x1 r1 IH]; intros l2.
+  - apply spec_ret_any. simpl. auto.
+  - destruct l2 as [|x2 r2]; [apply spec_ret_any; simpl; auto|].
+    cbn [zip2M length Nat.min]. rewrite Nat.mul_succ_r, Nat.add_comm.
+    eapply spec_bind; [apply Hf|]. intros [c1 c2] Hc.
+    eapply spec_weaken with (k := (k * Nat.min (length r1) (length r2) + 0)%nat); [lia|intros a Ha; exact Ha|].
+    eapply spec_bind; [apply IH|]. intros [r1' r2'] Hr. apply spec_ret. cbn [fst snd] in *. simpl. auto.
+Qed.
+
+(* partial correctness: any event stream *)
+Lemma zip2M_inv (f : R -> R -> M R (R * R)) (P : R -> R -> R * R -> Prop) :
+  (forall x1 x2 s c s', f x1 x2 s = Ok (c, s') -> P x1 x2 c) ->
+  forall l1 l2 s c1 c2 s', zip2M f l1 l2 s = Ok ((c1, c2), s') -> locus2 P l1 l2 c1 c2.
+Proof.
+  intros Hf. induction l1 as [|x1 r1 IH]; intros l2 s c1 c2 s' E.
+  - cbn in E. inversion E; subst. simpl; auto.
+  - destruct l2 as [|x2 r2]; [cbn in E; inversion E; subst; simpl; auto|].
+    cbn [zip2M] in E. unfold bind at 1 in E.
+    destruct (f x1 x2 s) as [[[y1 y2] s1]| |] eqn:Ef; try discriminate.
+    unfold bind at 1 in E.
+    destruct (zip2M f r1 r2 s1) as [[[r1' r2'] s2]| |] eqn:Er; try discriminate.
+    cbn in E. inversion E; subst. simpl. split; [eapply Hf; eauto|eapply IH; eauto].
+Qed.
+
+(* ---------------------------------------------------------------------------------------- *)
+(* bounds                                                                                   *)
+(* ---------------------------------------------------------------------------------------- *)
+(* the list `low` / `up` stands for: repeat(x, size) or the sequence itself *)
+Definition bvals (b : bnd (T:=R)) (n : nat) : list R :=
+  match b with Scalar x => repeat x n | PerGene l => l end.
+(* a sequence bound must be at least `size` long (otherwise IndexError) *)
+Definition bnd_long (b : bnd (T:=R)) (n : nat) : Prop :=
+  match b with Scalar _ => True | PerGene l => (n <= length l)%nat end.
+
+Lemma expand_ok b n : bnd_long b n -> pure_ok (expand b n) (bvals b n).
+Proof.
+  destruct b as [x|l]; intros H s; [reflexivity|]. cbn [expand bnd_long bvals] in *.
+  destruct (Nat.ltb_spec (length l) n); [lia|reflexivity].
+Qed.
+
+Lemma bvals_length b n : bnd_long b n -> (n <= length (bvals b n))%nat.
+Proof. destruct b; cbn; [rewrite repeat_length; lia|auto]. Qed.
+
+(* gene i lies within [lows_i, ups_i] wherever all three exist *)
+Fixpoint inbl (lows ups l : list R) : Prop :=
+  match lows, ups, l with
+  | xl :: lo, xu :: up, x :: r => inb xl xu x /\ inbl lo up r
+  | _, _, _ => True
+  end.
+(* lows_i < ups_i wherever both exist *)
+Fixpoint ltl (lows ups : list R) : Prop :=
+  match lows, ups with
+  | xl :: lo, xu :: up => xl < xu /\ ltl lo up
+  | _, _ => True
+  end.
+
+Lemma inbl_nth lows ups l : inbl lows ups l ->
+  forall i, (i < length lows)%nat -> (i < length ups)%nat -> (i < length l)%nat ->
+  inb (nth i lows 0) (nth i ups 0) (nth i l 0).
+Proof.
+  revert ups l; induction lows as [|xl lo IH]; intros ups l H i H1 H2 H3; [simpl in H1; lia|].
+  destruct ups as [|xu up]; [simpl in H2; lia|]. destruct l as [|x r]; [simpl in H3; lia|].
+  destruct H as [H0 H]. destruct i; [exact H0|]. simpl in *. apply IH; auto; lia.
+Qed.
+
+(* post-condition of the bounded two-parent loop *)
+Fixpoint post2b (lows ups l1 l2 c1 c2 : list R) : Prop :=
+  match lows, ups, l1, l2 with
+  | xl :: lo, xu :: up, _ :: r1, _ :: r2 =>
+      match c1, c2 with
+      | y1 :: r1', y2 :: r2' => inb xl xu y1 /\ inb xl xu y2 /\ post2b lo up r1 r2 r1' r2'
+      | _, _ => False
+      end
+  | _, _, _, _ => c1 = l1 /\ c2 = l2
+  end.
+
+Lemma zip2bM_sbxb eta lows : forall ups l1 l2, 0 <= eta -> inbl lows ups l1 -> inbl lows ups l2 ->
+  spec (3 * length lows) (zip2bM (sbxb_gene O eta) lows ups l1 l2)
+       (fun c => post2b lows ups l1 l2 (fst c) (snd c)).
+Proof.
+  induction lows as [|xl lo IH]; intros ups l1 l2 He H1 H2.
+  - apply spec_ret_any. simpl; auto.
+  - destruct ups as [|xu up]; [apply spec_ret_any; simpl; auto|].
+    destruct l1 as [|a r1]; [apply spec_ret_any; simpl; auto|].
+    destruct l2 as [|b r2]; [apply spec_ret_any; simpl; auto|].
+    destruct H1 as [Ha H1]. destruct H2 as [Hb H2].
+    cbn [zip2bM length]. rewrite Nat.mul_succ_r, Nat.add_comm.
+    eapply spec_bind; [apply (sbxb_gene_spec eta xl xu a b He Ha Hb)|]. intros [c1 c2] [Hc1 Hc2].
+    eapply spec_weaken with (k := (3 * length lo + 0)%nat); [lia|intros x Hx; exact Hx|].
+    eapply spec_bind; [apply (IH up r1 r2 He H1 H2)|]. intros [r1' r2'] Hr. apply spec_ret.
+    cbn [fst snd] in *. simpl. auto.
+Qed.
+
+Lemma post2b_length lows : forall ups l1 l2 c1 c2, post2b lows ups l1 l2 c1 c2 ->
+  length c1 = length l1 /\ length c2 = length l2.
+Proof.
+  induction lows as [|xl lo IH]; intros ups l1 l2 c1 c2 H; [destruct H; subst; auto|].
+  destruct ups as [|xu up]; [destruct H; subst; auto|].
+  destruct l1 as [|a r1]; [destruct H; subst; auto|].
+  destruct l2 as [|b r2]; [destruct H; subst; auto|].
+  destruct c1 as [|y1 r1']; [contradiction|]. destruct c2 as [|y2 r2']; [contradiction|].
+  destruct H as (_ & _ & H). destruct (IH _ _ _ _ _ H). simpl; split; congruence.
+Qed.
+
+(* children in bounds wherever the parents were; everything past the loop untouched *)
+Lemma post2b_inbl lows : forall ups l1 l2 c1 c2, post2b lows ups l1 l2 c1 c2 ->
+  inbl lows ups l1 -> inbl lows ups l2 -> inbl lows ups c1 /\ inbl lows ups c2.
+Proof.
+  induction lows as [|xl lo IH]; intros ups l1 l2 c1 c2 H H1 H2; [simpl; auto|].
+  destruct ups as [|xu up]; [simpl; auto|].
+  destruct l1 as [|a r1]; [destruct H; subst; simpl; auto|].
+  destruct l2 as [|b r2]; [destruct H; subst; simpl; auto|].
+  destruct c1 as [|y1 r1']; [contradiction|]. destruct c2 as [|y2 r2']; [contradiction|].
+  destruct H as (Ha & Hb & H). destruct H1 as [_ H1]. destruct H2 as [_ H2].
+  destruct (IH _ _ _ _ _ H H1 H2). simpl; auto.
+Qed.
+
+Lemma post2b_rest lows : forall ups l1 l2 c1 c2, post2b lows ups l1 l2 c1 c2 ->
+  forall i, (Nat.min (Nat.min (length lows) (length ups)) (Nat.min (length l1) (length l2)) <= i)%nat ->
+  nth i c1 0 = nth i l1 0 /\ nth i c2 0 = nth i l2 0.
+Proof.
+  induction lows as [|xl lo IH]; intros ups l1 l2 c1 c2 H i Hi; [destruct H; subst; auto|].
+  destruct ups as [|xu up]; [destruct H; subst; auto|].
+  destruct l1 as [|a r1]; [destruct H; subst; auto|].
+  destruct l2 as [|b r2]; [destruct H; subst; auto|].
+  destruct c1 as [|y1 r1']; [contradiction|]. destruct c2 as [|y2 r2']; [contradiction|].
+  destruct H as (_ & _ & H). destruct i as [|i]; [simpl in Hi; lia|]. simpl in Hi. simpl.
+  apply (IH _ _ _ _ _ H). lia.
+Qed.
+
+(* the operator *)
+Definition sbxb_bounds (low up : bnd (T:=R)) (size : nat) : list R * list R :=
+  (firstn size (bvals low size), firstn size (bvals up size)).
+
+Lemma cx_sbx_bounded_spec eta low up ind1 ind2 :
+  let size := Nat.min (length ind1) (length ind2) in
+  let lows := fst (sbxb_bounds low up size) in
+  let ups := snd (sbxb_bounds low up size) in
+  0 <= eta -> bnd_long low size -> bnd_long up size ->
+  inbl lows ups ind1 -> inbl lows ups ind2 ->
+  spec (3 * size) (cx_sbx_bounded O eta low up ind1 ind2)
+    (fun c => length (fst c) = length ind1 /\ length (snd c) = length ind2 /\
+              inbl lows ups (fst c) /\ inbl lows ups (snd c) /\
+              forall i, (size <= i)%nat -> nth i (fst c) 0 = nth i ind1 0 /\ nth i (snd c) 0 = nth i ind2 0).
+Proof.
+  intros size lows ups He Hl Hu H1 H2. unfold cx_sbx_bounded. fold size.
+  eapply spec_pure_bind; [apply expand_ok; exact Hl|].
+  eapply spec_pure_bind; [apply expand_ok; exact Hu|].
+  assert (Ll : length lows = size).
+  { unfold lows, sbxb_bounds; cbn [fst]. rewrite firstn_length. pose proof (bvals_length low size Hl). lia. }
+  assert (Lu : length ups = size).
+  { unfold ups, sbxb_bounds; cbn [snd]. rewrite firstn_length. pose proof (bvals_length up size Hu). lia. }
+  eapply spec_weaken; [| |apply (zip2bM_sbxb eta lows ups ind1 ind2 He H1 H2)]; [rewrite Ll; lia|].
+  intros [c1 c2] Hp. cbn [fst snd] in *.
+  destruct (post2b_length _ _ _ _ _ _ Hp) as [L1 L2].
+  destruct (post2b_inbl _ _ _ _ _ _ Hp H1 H2) as [B1 B2].
+  repeat split; auto; apply (post2b_rest _ _ _ _ _ _ Hp); rewrite Ll, Lu; fold size; lia.
+Qed.
+
+
+(* ---------------------------------------------------------------------------------------- *)
+(* mutPolynomialBounded: the operator                                                       *)
+(* ---------------------------------------------------------------------------------------- *)
+(* lows_i < ups_i wherever a gene exists *)
+Fixpoint ltl3 (lows ups l : list R) : Prop :=
+  match lows, ups, l with
+  | xl :: lo, xu :: up, _ :: r => xl < xu /\ ltl3 lo up r
+  | _, _, _ => True
+  end.
+
+Fixpoint post1b (lows ups l c : list R) : Prop :=
+  match lows, ups, l with
+  | xl :: lo, xu :: up, _ :: r =>
+      match c with y :: r' => inb xl xu y /\ post1b lo up r r' | [] => False end
+  | _, _, _ => c = l
+  end.
+
+Lemma map2bM_poly eta indpb lows : forall ups l, 0 <= eta -> ltl3 lows ups l -> inbl lows ups l ->
+  spec (2 * length l) (map2bM (poly_gene O eta indpb) lows ups l) (fun c => post1b lows ups l c).
+Proof.
+  induction lows as [|xl lo IH]; intros ups l He Hlt Hin.
+  - apply spec_ret_any. reflexivity.
+  - destruct ups as [|xu up]; [apply spec_ret_any; reflexivity|].
+    destruct l as [|x r]; [apply spec_ret_any; reflexivity|].
+    destruct Hlt as [Hlt0 Hlt]. destruct Hin as [Hin0 Hin].
+    cbn [map2bM length]. rewrite Nat.mul_succ_r, Nat.add_comm.
+    eapply spec_bind; [apply (poly_gene_spec eta indpb xl xu x He Hlt0 Hin0)|]. intros y Hy.
+    eapply spec_weaken with (k := (2 * length r + 0)%nat); [lia|intros a Ha; exact Ha|].
+    eapply spec_bind; [apply (IH up r He Hlt Hin)|]. intros r' Hr. apply spec_ret. simpl. auto.
+Qed.
+
+Lemma post1b_length lows : forall ups l c, post1b lows ups l c -> length c = length l.
+Proof.
+  induction lows as [|xl lo IH]; intros ups l c H; [simpl in H; subst; auto|].
+  destruct ups as [|xu up]; [simpl in H; subst; auto|].
+  destruct l as [|x r]; [simpl in H; subst; auto|].
+  destruct c as [|y r']; [contradiction|]. destruct H as [_ H]. simpl. f_equal. eapply IH; eauto.
+Qed.
+
+Lemma post1b_inbl lows : forall ups l c, post1b lows ups l c -> inbl lows ups c.
+Proof.
+  induction lows as [|xl lo IH]; intros ups l c H; [simpl; auto|].
+  destruct ups as [|xu up]; [simpl; auto|].
+  destruct l as [|x r]; [simpl in H; subst; simpl; auto|].
+  destruct c as [|y r']; [contradiction|]. destruct H as [H0 H]. simpl. split; [exact H0|eapply IH; eauto].
+Qed.
+
+Lemma mut_poly_spec eta low up indpb ind :
+  let size := length ind in
+  let lows := bvals low size in
+  let ups := bvals up size in
+  0 <= eta -> bnd_long low size -> bnd_long up size ->
+  ltl3 lows ups ind -> inbl lows ups ind ->
+  spec (2 * size) (mut_poly O eta low up indpb ind)
+       (fun c => length c = length ind /\ inbl lows ups c).
+Proof.
+  intros size lows ups He Hl Hu Hlt Hin. unfold mut_poly. fold size.
+  eapply spec_pure_bind; [apply expand_ok; exact Hl|].
+  eapply spec_pure_bind; [apply expand_ok; exact Hu|].
+  eapply spec_weaken; [| |apply (map2bM_poly eta indpb lows ups ind He Hlt Hin)]; [fold size; lia|].
+  intros c Hp. split; [eapply post1b_length; eauto|eapply post1b_inbl; eauto].
+Qed.
+
+(* every gene of the mutant is within its bounds: index form *)
+Lemma inbl_all lows ups l : (length l <= length lows)%nat -> (length l <= length ups)%nat ->
+  inbl lows ups l -> forall i, (i < length l)%nat -> inb (nth i lows 0) (nth i ups 0) (nth i l 0).
+Proof. intros H1 H2 H i Hi. apply inbl_nth; auto; lia. Qed.
+
+(* ---------------------------------------------------------------------------------------- *)
+(* mutGaussian                                                                              *)
+(* ---------------------------------------------------------------------------------------- *)
+Lemma expand_inv b n s l s' : expand (T:=R) b n s = Ok (l, s') -> s' = s.
+Proof.
+  destruct b as [x|l0]; cbn [expand]; [intros E; inversion E; auto|].
+  destruct (Nat.ltb (length l0) n); [discriminate|intros E; inversion E; auto].
+Qed.
+
+Lemma map2bM_length (f : R -> R -> R -> M R R) ms : forall ss l s c s',
+  map2bM f ms ss l s = Ok (c, s') -> length c = length l.
+Proof.
+  induction ms as [|m ms' IH]; intros ss l s c s' E; [cbn in E; inversion E; auto|].
+  destruct ss as [|sg ss']; [cbn in E; inversion E; auto|].
+  destruct l as [|x r]; [cbn in E; inversion E; auto|].
+  cbn [map2bM] in E. unfold bind at 1 in E.
+  destruct (f m sg x s) as [[y s1]| |]; try discriminate.
+  unfold bind at 1 in E. destruct (map2bM f ms' ss' r s1) as [[r' s2]| |] eqn:Er; try discriminate.
+  cbn in E. inversion E; subst. simpl. f_equal. eapply IH; eauto.
+Qed.
+
+Lemma draws_ok_tail e s : draws_ok (e :: s) -> draws_ok s.
+Proof. intro H; inversion H; auto. Qed.
+
+(* a loop whose body leaves each gene alone leaves the list alone *)
+Lemma map2bM_id (f : R -> R -> R -> M R R) :
+  (forall m sg x s y s', draws_ok s -> f m sg x s = Ok (y, s') -> y = x /\ draws_ok s') ->
+  forall ms ss l s c s', draws_ok s -> map2bM f ms ss l s = Ok (c, s') -> c = l /\ draws_ok s'.
+Proof.
+  intros Hf. induction ms as [|m ms' IH]; intros ss l s c s' Hs E; [cbn in E; inversion E; subst; auto|].
+  destruct ss as [|sg ss']; [cbn in E; inversion E; subst; auto|].
+  destruct l as [|x r]; [cbn in E; inversion E; subst; auto|].
+  cbn [map2bM] in E. unfold bind at 1 in E.
+  destruct (f m sg x s) as [[y s1]| |] eqn:Ef; try discriminate.
+  destruct (Hf _ _ _ _ _ _ Hs Ef) as [-> Hs1].
+  unfold bind at 1 in E. destruct (map2bM f ms' ss' r s1) as [[r' s2]| |] eqn:Er; try discriminate.
+  cbn in E. inversion E; subst. destruct (IH _ _ _ _ _ Hs1 Er) as [-> Hs2]. auto.
+Qed.
+
+Lemma gauss_gene_indpb0 m sg x s y s' :
+  draws_ok s -> gauss_gene O 0 m sg x s = Ok (y, s') -> y = x /\ draws_ok s'.
+Proof.
+  intros Hs. unfold gauss_gene, bind, draw_random. destruct s as [|[u| | |] s]; try discriminate.
+  rsimp. inversion Hs as [|? ? Hu Hs0]; subst. destruct Hu as [Hu0 _].
+  assert (E : Rltb u 0 = false) by (apply Rltb_false; exact Hu0). rewrite E.
+  cbn. intros H; inversion H; subst. auto.
+Qed.
+
+Lemma mut_gaussian_length mu sigma indpb ind s c s' :
+  mut_gaussian O mu sigma indpb ind s = Ok (c, s') -> length c = length ind.
+Proof.
+  unfold mut_gaussian, bind. destruct (expand mu (length ind) s) as [[ms s1]| |]; try discriminate.
+  destruct (expand sigma (length ind) s1) as [[ss s2]| |]; try discriminate.
+  apply map2bM_length.
+Qed.
+
+Lemma mut_gaussian_indpb0 mu sigma ind s c s' : draws_ok s ->
+  mut_gaussian O mu sigma 0 ind s = Ok (c, s') -> c = ind.
+Proof.
+  intros Hs. unfold mut_gaussian, bind.
+  destruct (expand mu (length ind) s) as [[ms s1]| |] eqn:E1; try discriminate.
+  apply expand_inv in E1; subst s1.
+  destruct (expand sigma (length ind) s) as [[ss s2]| |] eqn:E2; try discriminate.
+  apply expand_inv in E2; subst s2.
+  intros E. eapply map2bM_id in E; [tauto| |exact Hs].
+  intros; eapply gauss_gene_indpb0; eauto.
+Qed.
+
+(* with indpb = 0 and one draw per gene the operator returns normally, unchanged *)
+Lemma gauss_gene_indpb0_spec m sg x : spec 1 (gauss_gene O 0 m sg x) (fun y => y = x).
+Proof.
+  unfold gauss_gene. apply spec_draw_bind. intros u [Hu0 _]. rsimp.
+  assert (E : Rltb u 0 = false) by (apply Rltb_false; exact Hu0). rewrite E. now apply spec_ret.
+Qed.
+
+Lemma map2bM_spec_id (f : R -> R -> R -> M R R) :
+  (forall m sg x, spec 1 (f m sg x) (fun y => y = x)) ->
+  forall ms ss l, spec (length l) (map2bM f ms ss l) (fun c => c = l).
+Proof.
+  intros Hf. induction ms as [|m ms' IH]; intros ss l; [now apply spec_ret_any|].
+  destruct ss as [|sg ss']; [now apply spec_ret_any|]. destruct l as [|x r]; [now apply spec_ret_any|].
+  cbn [map2bM length]. change (S (length r)) with (1 + length r)%nat.
+  eapply spec_bind; [apply Hf|]. intros y ->.
+  eapply spec_weaken with (k := (length r + 0)%nat); [lia|intros a Ha; exact Ha|].
+  eapply spec_bind; [apply IH|]. intros r' ->. now apply spec_ret.
+Qed.
+
+Lemma mut_gaussian_indpb0_spec mu sigma ind :
+  bnd_long mu (length ind) -> bnd_long sigma (length ind) ->
+  spec (length ind) (mut_gaussian O mu sigma 0 ind) (fun c => c = ind).
+Proof.
+  intros Hm Hs. unfold mut_gaussian.
+  eapply spec_pure_bind; [apply expand_ok; exact Hm|].
+  eapply spec_pure_bind; [apply expand_ok; exact Hs|].
+  apply map2bM_spec_id. intros; apply gauss_gene_indpb0_spec.
+Qed.
+
+(* ---------------------------------------------------------------------------------------- *)
+(* mutESLogNormal                                                                           *)
+(* ---------------------------------------------------------------------------------------- *)
+(* strategy i is multiplied by a strictly positive factor (an exponential) or left alone *)
+Definition scaled (a b : R) : Prop := exists k, 0 < k /\ b = a * k.
+
+Lemma eslog_loop_inv t t0n indpb g : forall st s g' st' s',
+  eslog_loop O t t0n indpb g st s = Ok ((g', st'), s') ->
+  length g' = length g /\ Forall2 scaled st st'.
+Proof.
+  induction g as [|x g IH]; intros st s g' st' s' E.
+  - cbn in E. inversion E; subst. split; [reflexivity|].
+    clear. induction st'; constructor; auto. exists 1. split; lra.
+  - cbn [eslog_loop] in E. unfold bind at 1, draw_random at 1 in E.
+    destruct s as [|[u| | |] s]; try discriminate. rsimp.
+    destruct (Rltb u indpb).
+    + destruct st as [|sg st]; [discriminate|].
+      unfold bind at 1, draw_gauss at 1 in E. destruct s as [|[|m0 s0 n1| |] s]; try discriminate.
+      destruct (o_same R O m0 0 && o_same R O s0 1); try discriminate.
+      unfold bind at 1, ret at 1 in E.
+      unfold bind at 1, draw_gauss at 1 in E. destruct s as [|[|m1 s1 n2| |] s]; try discriminate.
+      destruct (o_same R O m1 0 && o_same R O s1 1); try discriminate.
+      unfold bind at 1 in E.
+      destruct (eslog_loop O t t0n indpb g st s) as [[[gr sr] s2]| |] eqn:Er; try discriminate.
+      cbn in E. inversion E; subst. destruct (IH _ _ _ _ _ Er) as [L F].
+      split; [simpl; congruence|]. constructor; [|exact F].
+      exists (exp (t0n + t * n1)). split; [apply exp_pos|reflexivity].
+    + destruct st as [|sg st].
+      * unfold bind at 1 in E.
+        destruct (eslog_loop O t t0n indpb g [] s) as [[[gr sr] s2]| |] eqn:Er; try discriminate.
+        cbn in E. inversion E; subst. destruct (IH _ _ _ _ _ Er) as [L F].
+        split; [simpl; congruence|exact F].
+      * unfold bind at 1 in E.
+        destruct (eslog_loop O t t0n indpb g st s) as [[[gr sr] s2]| |] eqn:Er; try discriminate.
+        cbn in E. inversion E; subst. destruct (IH _ _ _ _ _ Er) as [L F].
+        split; [simpl; congruence|]. constructor; [|exact F]. exists 1. split; lra.
+Qed.
+
+Lemma eslog_loop_indpb0 t t0n g : forall st s g' st' s', draws_ok s ->
+  eslog_loop O t t0n 0 g st s = Ok ((g', st'), s') -> g' = g /\ st' = st.
+Proof.
+  induction g as [|x g IH]; intros st s g' st' s' Hs E.
+  - cbn in E. inversion E; subst. auto.
+  - cbn [eslog_loop] in E. unfold bind at 1, draw_random at 1 in E.
+    destruct s as [|[u| | |] s]; try discriminate. rsimp.
+    inversion Hs as [|? ? Hu Hs0]; subst. destruct Hu as [Hu0 _].
+    assert (Eu : Rltb u 0 = false) by (apply Rltb_false; exact Hu0). rewrite Eu in E.
+    destruct st as [|sg st]; unfold bind at 1 in E.
+    + destruct (eslog_loop O t t0n 0 g [] s) as [[[gr sr] s2]| |] eqn:Er; try discriminate.
+      cbn in E. inversion E; subst. destruct (IH _ _ _ _ _ Hs0 Er) as [-> ->]. auto.
+    + destruct (eslog_loop O t t0n 0 g st s) as [[[gr sr] s2]| |] eqn:Er; try discriminate.
+      cbn in E. inversion E; subst. destruct (IH _ _ _ _ _ Hs0 Er) as [-> ->]. auto.
+Qed.
+
+Lemma Forall2_scaled_length st st' : Forall2 scaled st st' -> length st' = length st.
+Proof. induction 1; simpl; congruence. Qed.
+
+Lemma Forall2_scaled_pos st st' : Forall2 scaled st st' ->
+  forall i, 0 < nth i st 0 -> 0 < nth i st' 0.
+Proof.
+  induction 1 as [|a b l l' [k [Hk ->]] _ IH]; intros i Hi; [destruct i; simpl in *; lra|].
+  destruct i; simpl in *; [now apply Rmult_lt_0_compat|now apply IH].
+Qed.
+
+Lemma mut_es_lognormal_inv c indpb g st s g' st' s' :
+  mut_es_lognormal O c indpb g st s = Ok ((g', st'), s') ->
+  length g' = length g /\ length st' = length st /\ Forall2 scaled st st'.
+Proof.
+  unfold mut_es_lognormal. rsimp. unfold bind at 1.
+  destruct (lift _ s) as [[t s1]| |]; try discriminate.
+  unfold bind at 1. destruct (lift _ s1) as [[t0 s2]| |]; try discriminate.
+  unfold bind at 1. destruct (draw_gauss O 0 1 s2) as [[n s3]| |]; try discriminate.
+  intros E. destruct (eslog_loop_inv _ _ _ _ _ _ _ _ _ E) as [L F].
+  split; [exact L|]. split; [now apply Forall2_scaled_length|exact F].
+Qed.
+
+Lemma draw_gauss_inv mu sg s r s' : draw_gauss O mu sg s = Ok (r, s') -> exists e, s = e :: s'.
+Proof.
+  unfold draw_gauss. destruct s as [|[|m0 s0 n| |] s]; try discriminate.
+  destruct (_ && _); try discriminate. intros E; inversion E; subst. eauto.
+Qed.
+
+Lemma lift_inv {A} (r : res A) s a s' : lift (T:=R) r s = Ok (a, s') -> s' = s.
+Proof. unfold lift. destruct r; try discriminate. intros E; inversion E; auto. Qed.
+
+Lemma mut_es_lognormal_indpb0 c g st s g' st' s' : draws_ok s ->
+  mut_es_lognormal O c 0 g st s = Ok ((g', st'), s') -> g' = g /\ st' = st.
+Proof.
+  intros Hs. unfold mut_es_lognormal. rsimp. unfold bind at 1.
+  destruct (lift _ s) as [[t s1]| |] eqn:E1; try discriminate. apply lift_inv in E1; subst s1.
+  unfold bind at 1. destruct (lift _ s) as [[t0 s2]| |] eqn:E2; try discriminate. apply lift_inv in E2; subst s2.
+  unfold bind at 1. destruct (draw_gauss O 0 1 s) as [[n s3]| |] eqn:E3; try discriminate.
+  apply draw_gauss_inv in E3. destruct E3 as [e ->]. apply draws_ok_tail in Hs.
+  intros E. eapply eslog_loop_indpb0; eauto.
+Qed.
+
+(* ---------------------------------------------------------------------------------------- *)
+(* cxESBlend                                                                                *)
+(* ---------------------------------------------------------------------------------------- *)
+(* at every locus below the shortest of the four lists P holds for the genes and for the
+   strategies; past it nothing changes *)
+Fixpoint locus4 (P : R -> R -> R * R -> Prop) (g1 s1 g2 s2 a b c d : list R) : Prop :=
+  match g1, s1, g2, s2 with
+  | x1 :: g1', t1 :: s1', x2 :: g2', t2 :: s2' =>
+      match a, b, c, d with
+      | y1 :: a', u1 :: b', y2 :: c', u2 :: d' =>
+          P x1 x2 (y1, y2) /\ P t1 t2 (u1, u2) /\ locus4 P g1' s1' g2' s2' a' b' c' d'
+      | _, _, _, _ => False
+      end
+  | _, _, _, _ => a = g1 /\ b = s1 /\ c = g2 /\ d = s2
+  end.
+
+Lemma cx_es_blend_inv alpha : forall g1 s1 g2 s2 s a b c d s',
+  cx_es_blend O alpha g1 s1 g2 s2 s = Ok ((a, b, c, d), s') ->
+  locus4 (fun x1 x2 c => fst c + snd c = x1 + x2) g1 s1 g2 s2 a b c d.
+Proof.
+  induction g1 as [|x1 g1 IH]; intros s1 g2 s2 s a b c d s' E; [cbn in E; inversion E; subst; simpl; auto|].
+  destruct s1 as [|t1 s1]; [cbn in E; inversion E; subst; simpl; auto|].
+  destruct g2 as [|x2 g2]; [cbn in E; inversion E; subst; simpl; auto|].
+  destruct s2 as [|t2 s2]; [cbn in E; inversion E; subst; simpl; auto|].
+  cbn [cx_es_blend] in E. unfold bind at 1 in E.
+  destruct (blend_gene O alpha x1 x2 s) as [[[y1 y2] sa]| |] eqn:E1; try discriminate.
+  unfold bind at 1 in E.
+  destruct (blend_gene O alpha t1 t2 sa) as [[[u1 u2] sb]| |] eqn:E2; try discriminate.
+  unfold bind at 1 in E.
+  destruct (cx_es_blend O alpha g1 s1 g2 s2 sb) as [[[[[a' b'] c'] d'] sc]| |] eqn:E3; try discriminate.
+  cbn in E. inversion E; subst. simpl.
+  split; [eapply blend_gene_sum; eauto|]. split; [eapply blend_gene_sum; eauto|]. eapply IH; eauto.
+Qed.
+
+Lemma cx_es_blend_spec alpha : 0 <= alpha -> forall g1 s1 g2 s2,
+  spec (2 * length g1) (cx_es_blend O alpha g1 s1 g2 s2)
+       (fun r => let '(a, b, c, d) := r in locus4 (blend_post alpha) g1 s1 g2 s2 a b c d).
+Proof.
+  intros Ha. induction g1 as [|x1 g1 IH]; intros s1 g2 s2; [apply spec_ret_any; simpl; auto|].
+  destruct s1 as [|t1 s1]; [apply spec_ret_any; simpl; auto|].
+  destruct g2 as [|x2 g2]; [apply spec_ret_any; simpl; auto|].
+  destruct s2 as [|t2 s2]; [apply spec_ret_any; simpl; auto|].
+  cbn [cx_es_blend length].
+  replace (2 * S (length g1))%nat with (1 + (1 + (2 * length g1 + 0)))%nat by lia.
+  eapply spec_bind; [apply (blend_gene_spec alpha x1 x2 Ha)|]. intros [y1 y2] H1.
+  eapply spec_bind; [apply (blend_gene_spec alpha t1 t2 Ha)|]. intros [u1 u2] H2.
+  eapply spec_bind; [apply IH|]. intros [[[a b] c] d] H3. apply spec_ret. simpl. auto.
+Qed.
+
+(* ---------------------------------------------------------------------------------------- *)
+(* object level: the operators return the individuals (and strategy lists) they were given  *)
+(* ---------------------------------------------------------------------------------------- *)
+Definition same_obj (i o : indiv (T:=R)) : Prop := iuid o = iuid i /\ suid o = suid i.
+
+Lemma bind_inv {A B} (m : M R A) (f : A -> M R B) s b s' :
+  bind m f s = Ok (b, s') -> exists a s1, m s = Ok (a, s1) /\ f a s1 = Ok (b, s').
+Proof. unfold bind. destruct (m s) as [[a s1]| |]; try discriminate. eauto. Qed.
+
+Lemma op_blend_same alpha i1 i2 s o1 o2 s' :
+  op_blend O alpha i1 i2 s = Ok ((o1, o2), s') ->
+  same_obj i1 o1 /\ same_obj i2 o2 /\ strat o1 = strat i1 /\ strat o2 = strat i2.
+Proof.
+  unfold op_blend. intros E. apply bind_inv in E. destruct E as ([g1 g2] & s1 & _ & E).
+  cbn in E. inversion E; subst. unfold same_obj; cbn. auto.
+Qed.
+Lemma op_sbx_same eta i1 i2 s o1 o2 s' :
+  op_sbx O eta i1 i2 s = Ok ((o1, o2), s') ->
+  same_obj i1 o1 /\ same_obj i2 o2 /\ strat o1 = strat i1 /\ strat o2 = strat i2.
+Proof.
+  unfold op_sbx. intros E. apply bind_inv in E. destruct E as ([g1 g2] & s1 & _ & E).
+  cbn in E. inversion E; subst. unfold same_obj; cbn. auto.
+Qed.
+Lemma op_sbx_bounded_same eta low up i1 i2 s o1 o2 s' :
+  op_sbx_bounded O eta low up i1 i2 s = Ok ((o1, o2), s') ->
+  same_obj i1 o1 /\ same_obj i2 o2 /\ strat o1 = strat i1 /\ strat o2 = strat i2.
+Proof.
+  unfold op_sbx_bounded. intros E. apply bind_inv in E. destruct E as ([g1 g2] & s1 & _ & E).
+  cbn in E. inversion E; subst. unfold same_obj; cbn. auto.
+Qed.
+Lemma op_es_blend_same alpha i1 i2 s o1 o2 s' :
+  op_es_blend O alpha i1 i2 s = Ok ((o1, o2), s') -> same_obj i1 o1 /\ same_obj i2 o2.
+Proof.
+  unfold op_es_blend. intros E. apply bind_inv in E. destruct E as ([[[g1 t1] g2] t2] & s1 & _ & E).
+  cbn in E. inversion E; subst. unfold same_obj; cbn. auto.
+Qed.
+Lemma op_gaussian_same mu sigma indpb i s o s' :
+  op_gaussian O mu sigma indpb i s = Ok (o, s') -> same_obj i o /\ strat o = strat i.
+Proof.
+  unfold op_gaussian. intros E. apply bind_inv in E. destruct E as (g & s1 & _ & E).
+  cbn in E. inversion E; subst. unfold same_obj; cbn. auto.
+Qed.
+Lemma op_poly_same eta low up indpb i s o s' :
+  op_poly O eta low up indpb i s = Ok (o, s') -> same_obj i o /\ strat o = strat i.
+Proof.
+  unfold op_poly. intros E. apply bind_inv in E. destruct E as (g & s1 & _ & E).
+  cbn in E. inversion E; subst. unfold same_obj; cbn. auto.
+Qed.
+Lemma op_es_lognormal_same c indpb i s o s' :
+  op_es_lognormal O c indpb i s = Ok (o, s') -> same_obj i o.
+Proof.
+  unfold op_es_lognormal. intros E. apply bind_inv in E. destruct E as ([g t] & s1 & _ & E).
+  cbn in E. inversion E; subst. unfold same_obj; cbn. auto.
+Qed.
+
+
+(* ---------------------------------------------------------------------------------------- *)
+(* operator-level statements in index form                                                  *)
+(* ---------------------------------------------------------------------------------------- *)
+Definition sum_kept (l1 l2 c1 c2 : list R) : Prop :=
+  length c1 = length l1 /\ length c2 = length l2 /\
+  forall i, nth i c1 0 + nth i c2 0 = nth i l1 0 + nth i l2 0.
+
+Lemma locus2_sum_kept l1 l2 c1 c2 :
+  locus2 (fun x1 x2 c => fst c + snd c = x1 + x2) l1 l2 c1 c2 -> sum_kept l1 l2 c1 c2.
+Proof.
+  intros H. destruct (locus2_length _ _ _ _ _ H) as [L1 L2]. split; [exact L1|]. split; [exact L2|].
+  intros i. destruct (Nat.lt_ge_cases i (Nat.min (length l1) (length l2))) as [Hi|Hi].
+  - apply (locus2_nth _ _ _ _ _ H i Hi).
+  - destruct (locus2_rest _ _ _ _ _ H i Hi) as [-> ->]. reflexivity.
+Qed.
+
+Lemma cx_blend_sum alpha l1 l2 s c1 c2 s' :
+  cx_blend O alpha l1 l2 s = Ok ((c1, c2), s') -> sum_kept l1 l2 c1 c2.
+Proof.
+  intros E. apply locus2_sum_kept. eapply zip2M_inv; [|exact E].
+  intros x1 x2 s0 [y1 y2] s1 E0. cbn. eapply blend_gene_sum; eauto.
+Qed.
+
+Lemma cx_sbx_sum eta l1 l2 s c1 c2 s' :
+  cx_sbx O eta l1 l2 s = Ok ((c1, c2), s') -> sum_kept l1 l2 c1 c2.
+Proof.
+  intros E. apply locus2_sum_kept. eapply zip2M_inv; [|exact E].
+  intros x1 x2 s0 [y1 y2] s1 E0. cbn. eapply sbx_gene_sum; eauto.
+Qed.
+
+(* children inside the parental interval widened by alpha * width, sums kept, tails untouched *)
+Definition blend_ok (alpha : R) (l1 l2 c1 c2 : list R) : Prop :=
+  sum_kept l1 l2 c1 c2 /\
+  (forall i, (i < Nat.min (length l1) (length l2))%nat ->
+     let lo := Rmin (nth i l1 0) (nth i l2 0) in
+     let hi := Rmax (nth i l1 0) (nth i l2 0) in
+     lo - alpha * (hi - lo) <= nth i c1 0 <= hi + alpha * (hi - lo) /\
+     lo - alpha * (hi - lo) <= nth i c2 0 <= hi + alpha * (hi - lo)) /\
+  (forall i, (Nat.min (length l1) (length l2) <= i)%nat ->
+     nth i c1 0 = nth i l1 0 /\ nth i c2 0 = nth i l2 0).
+
+Lemma locus2_blend_ok alpha l1 l2 c1 c2 : locus2 (blend_post alpha) l1 l2 c1 c2 -> blend_ok alpha l1 l2 c1 c2.
+Proof.
+  intros H. split; [|split].
+  - apply locus2_sum_kept. revert H. clear. revert l2 c1 c2.
+    induction l1 as [|x1 r1 IH]; intros l2 c1 c2 H; [exact H|].
+    destruct l2 as [|x2 r2]; [exact H|].
+    destruct c1 as [|y1 r1']; [contradiction|]. destruct c2 as [|y2 r2']; [contradiction|].
+    destruct H as [[H0 _] H]. split; [exact H0|apply IH; exact H].
+  - intros i Hi. pose proof (locus2_nth _ _ _ _ _ H i Hi) as (_ & A & B). cbn [fst snd] in *. split; assumption.
+  - apply (locus2_rest _ _ _ _ _ H).
+Qed.
+
+Lemma cx_blend_spec alpha l1 l2 : 0 <= alpha ->
+  spec (Nat.min (length l1) (length l2)) (cx_blend O alpha l1 l2)
+       (fun c => blend_ok alpha l1 l2 (fst c) (snd c)).
+Proof.
+  intros Ha. unfold cx_blend.
+  eapply spec_weaken; [| |apply (zip2M_spec 1 _ (blend_post alpha))].
+  - lia.
+  - intros c Hc. apply locus2_blend_ok. exact Hc.
+  - intros x1 x2. apply blend_gene_spec; exact Ha.
+Qed.
+
+Lemma cx_sbx_spec eta l1 l2 : 0 <= eta ->
+  spec (Nat.min (length l1) (length l2)) (cx_sbx O eta l1 l2)
+       (fun c => sum_kept l1 l2 (fst c) (snd c)).
+Proof.
+  intros He. unfold cx_sbx.
+  eapply spec_weaken; [| |apply (zip2M_spec 1 _ (fun x1 x2 c => fst c + snd c = x1 + x2))].
+  - lia.
+  - intros c Hc. apply locus2_sum_kept. exact Hc.
+  - intros x1 x2. apply sbx_gene_spec; exact He.
+Qed.
+
+(* what [spec] says, spelled out *)
+Lemma spec_elim {A} k (m : M R A) (Q : A -> Prop) : spec k m Q ->
+  forall us, Forall in01 us -> (k <= length us)%nat ->
+  exists a us', m (rs us) = Ok (a, rs us') /\ Q a /\ Forall in01 us' /\
+                (length us' <= length us <= length us' + k)%nat.
+Proof.
+  intros H us Hus Hlen. destruct (H us Hus Hlen) as (a & pre & us' & E & Hp & Hm & Ha).
+  exists a, us'. split; [exact Hm|]. split; [exact Ha|]. subst us.
+  split; [apply Forall_app in Hus; tauto|]. rewrite app_length. lia.
+Qed.
+
+
+(* cxESBlend in index form *)
+Definition min4 (g1 s1 g2 s2 : list R) : nat :=
+  Nat.min (Nat.min (length g1) (length s1)) (Nat.min (length g2) (length s2)).
+
+Lemma locus4_split P : forall g1 s1 g2 s2 a b c d, locus4 P g1 s1 g2 s2 a b c d ->
+  (length a = length g1 /\ length b = length s1 /\ length c = length g2 /\ length d = length s2) /\
+  (forall i, (i < min4 g1 s1 g2 s2)%nat ->
+     P (nth i g1 0) (nth i g2 0) (nth i a 0, nth i c 0) /\ P (nth i s1 0) (nth i s2 0) (nth i b 0, nth i d 0)) /\
+  (forall i, (min4 g1 s1 g2 s2 <= i)%nat ->
+     nth i a 0 = nth i g1 0 /\ nth i b 0 = nth i s1 0 /\ nth i c 0 = nth i g2 0 /\ nth i d 0 = nth i s2 0).
+Proof.
+  unfold min4.
+  induction g1 as [|x1 g1 IH]; intros s1 g2 s2 a b c d H.
+  { destruct H as (-> & -> & -> & ->). split; [auto|]. split; [intros i Hi; simpl in Hi; lia|intros i _; auto]. }
+  destruct s1 as [|t1 s1].
+  { destruct H as (-> & -> & -> & ->). split; [auto|]. split; [intros i Hi; simpl in Hi; lia|intros i _; auto]. }
+  destruct g2 as [|x2 g2].
+  { destruct H as (-> & -> & -> & ->). split; [auto|]. split; [intros i Hi; simpl in Hi; lia|intros i _; auto]. }
+  destruct s2 as [|t2 s2].
+  { destruct H as (-> & -> & -> & ->). split; [auto|]. split; [intros i Hi; simpl in Hi; lia|intros i _; auto]. }
+  destruct a as [|y1 a]; [contradiction|]. destruct b as [|u1 b]; [contradiction|].
+  destruct c as [|y2 c]; [contradiction|]. destruct d as [|u2 d]; [contradiction|].
+  destruct H as (H1 & H2 & H). destruct (IH _ _ _ _ _ _ _ H) as ((La & Lb & Lc & Ld) & Hlt & Hge).
+  split; [simpl; repeat split; congruence|]. split.
+  - intros [|i] Hi; [simpl; auto|]. simpl in Hi. simpl. apply Hlt. lia.
+  - intros [|i] Hi; [simpl in Hi; lia|]. simpl in Hi. simpl. apply Hge. lia.
+Qed.
+
+Lemma cx_es_blend_sum alpha g1 s1 g2 s2 s a b c d s' :
+  cx_es_blend O alpha g1 s1 g2 s2 s = Ok ((a, b, c, d), s') ->
+  sum_kept g1 g2 a c /\ sum_kept s1 s2 b d.
+Proof.
+  intros E. apply cx_es_blend_inv in E. apply locus4_split in E.
+  destruct E as ((La & Lb & Lc & Ld) & Hlt & Hge). split.
+  - split; [exact La|]. split; [exact Lc|]. intros i.
+    destruct (Nat.lt_ge_cases i (min4 g1 s1 g2 s2)) as [Hi|Hi];
+      [destruct (Hlt i Hi) as [A _]; exact A|destruct (Hge i Hi) as (-> & _ & -> & _); reflexivity].
+  - split; [exact Lb|]. split; [exact Ld|]. intros i.
+    destruct (Nat.lt_ge_cases i (min4 g1 s1 g2 s2)) as [Hi|Hi];
+      [destruct (Hlt i Hi) as [_ B]; exact B|destruct (Hge i Hi) as (_ & -> & _ & ->); reflexivity].
+Qed.
+
+Definition within (alpha x1 x2 c : R) : Prop :=
+  Rmin x1 x2 - alpha * (Rmax x1 x2 - Rmin x1 x2) <= c <= Rmax x1 x2 + alpha * (Rmax x1 x2 - Rmin x1 x2).
+
+Lemma cx_es_blend_spec_idx alpha g1 s1 g2 s2 : 0 <= alpha ->
+  spec (2 * length g1) (cx_es_blend O alpha g1 s1 g2 s2)
+    (fun r => let '(a, b, c, d) := r in
+       sum_kept g1 g2 a c /\ sum_kept s1 s2 b d /\
+       (forall i, (i < min4 g1 s1 g2 s2)%nat ->
+          within alpha (nth i g1 0) (nth i g2 0) (nth i a 0) /\ within alpha (nth i g1 0) (nth i g2 0) (nth i c 0) /\
+          within alpha (nth i s1 0) (nth i s2 0) (nth i b 0) /\ within alpha (nth i s1 0) (nth i s2 0) (nth i d 0)) /\
+       (forall i, (min4 g1 s1 g2 s2 <= i)%nat ->
+          nth i a 0 = nth i g1 0 /\ nth i b 0 = nth i s1 0 /\ nth i c 0 = nth i g2 0 /\ nth i d 0 = nth i s2 0)).
+Proof.
+  intros Ha. eapply spec_weaken; [| |apply (cx_es_blend_spec alpha Ha g1 s1 g2 s2)]; [lia|].
+  intros [[[a b] c] d] H. apply locus4_split in H. destruct H as ((La & Lb & Lc & Ld) & Hlt & Hge).
+  assert (S1 : sum_kept g1 g2 a c).
+  { split; [exact La|]. split; [exact Lc|]. intros i.
+    destruct (Nat.lt_ge_cases i (min4 g1 s1 g2 s2)) as [Hi|Hi];
+      [destruct (Hlt i Hi) as [(A & _) _]; exact A|destruct (Hge i Hi) as (-> & _ & -> & _); reflexivity]. }
+  assert (S2 : sum_kept s1 s2 b d).
+  { split; [exact Lb|]. split; [exact Ld|]. intros i.
+    destruct (Nat.lt_ge_cases i (min4 g1 s1 g2 s2)) as [Hi|Hi];
+      [destruct (Hlt i Hi) as [_ (B & _)]; exact B|destruct (Hge i Hi) as (_ & -> & _ & ->); reflexivity]. }
+  split; [exact S1|]. split; [exact S2|]. split; [|exact Hge].
+  intros i Hi. destruct (Hlt i Hi) as [(_ & A1 & A2) (_ & B1 & B2)]. cbn [fst snd] in *.
+  unfold within. repeat split; lra.
+Qed.
+
+Lemma cx_sbx_bounded_defined_in_bounds : forall eta low up ind1 ind2,
+  0 <= eta ->
+  let size := Nat.min (length ind1) (length ind2) in
+  let lows := firstn size (bvals low size) in
+  let ups := firstn size (bvals up size) in
+  bnd_long low size -> bnd_long up size ->
+  inbl lows ups ind1 -> inbl lows ups ind2 ->
+  forall us, Forall in01 us -> (3 * size <= length us)%nat ->
+  exists c1 c2 us',
+    cx_sbx_bounded O eta low up ind1 ind2 (rs us) = Ok ((c1, c2), rs us') /\
+    length c1 = length ind1 /\ length c2 = length ind2 /\
+    inbl lows ups c1 /\ inbl lows ups c2 /\
+    (forall i, (i < size)%nat -> nth i lows 0 <= nth i c1 0 <= nth i ups 0 /\
+                                 nth i lows 0 <= nth i c2 0 <= nth i ups 0) /\
+    (forall i, (size <= i)%nat -> nth i c1 0 = nth i ind1 0 /\ nth i c2 0 = nth i ind2 0).
+Proof.
+  intros eta low up ind1 ind2 He size lows ups Hl Hu H1 H2 us Hus Hlen.
+  destruct (spec_elim _ _ _ (cx_sbx_bounded_spec eta low up ind1 ind2 He Hl Hu H1 H2) us Hus Hlen)
+    as ([c1 c2] & us' & E & (L1 & L2 & B1 & B2 & Hrest) & _ & _).
+  exists c1, c2, us'. cbn [fst snd] in *. repeat (split; [assumption|]). split; [|exact Hrest].
+  assert (Ll : length lows = size).
+  { unfold lows. rewrite firstn_length. pose proof (bvals_length low size Hl). lia. }
+  assert (Lu : length ups = size).
+  { unfold ups. rewrite firstn_length. pose proof (bvals_length up size Hu). lia. }
+  intros i Hi. split; apply inbl_nth; auto; unfold size in *; lia.
+Qed.
+
+Lemma mut_poly_defined_in_bounds : forall eta low up indpb ind,
+  0 <= eta ->
+  let size := length ind in
+  let lows := bvals low size in
+  let ups := bvals up size in
+  bnd_long low size -> bnd_long up size ->
+  ltl3 lows ups ind ->                       (* low_i < up_i at every gene *)
+  inbl lows ups ind ->                       (* low_i <= x_i <= up_i *)
+  forall us, Forall in01 us -> (2 * size <= length us)%nat ->
+  exists c us',
+    mut_poly O eta low up indpb ind (rs us) = Ok (c, rs us') /\
+    length c = length ind /\
+    forall i, (i < length ind)%nat -> nth i lows 0 <= nth i c 0 <= nth i ups 0.
+Proof.
+  intros eta low up indpb ind He size lows ups Hl Hu Hlt Hin us Hus Hlen.
+  destruct (spec_elim _ _ _ (mut_poly_spec eta low up indpb ind He Hl Hu Hlt Hin) us Hus Hlen)
+    as (c & us' & E & (L & B) & _ & _).
+  exists c, us'. split; [exact E|]. split; [exact L|].
+  intros i Hi. apply inbl_nth; auto.
+  - pose proof (bvals_length low size Hl). unfold lows, size in *. lia.
+  - pose proof (bvals_length up size Hu). unfold ups, size in *. lia.
+  - lia.
+Qed.
+
+Lemma mut_es_lognormal_strategy_pos : forall c indpb g st s g' st' s',
+  mut_es_lognormal O c indpb g st s = Ok ((g', st'), s') ->
+  forall i, 0 < nth i st 0 -> 0 < nth i st' 0.
+Proof.
+  intros c indpb g st s g' st' s' E.
+  apply Forall2_scaled_pos. eapply mut_es_lognormal_inv; eauto.
+Qed.
+
 End WithEps.
